@@ -29,6 +29,10 @@ MUTG2 = [('result-keeps-the-old-lengths', RA, "            return RaggedArray(sl
 MUTG3 = [('row-slice-length-from-the-data', RA, "                first_dimension_iis = _slice_to_list(\n                    first_dimension, length=len(self.lengths))\n                # if the second dimension is a slice, determines the 2d indices\n                # from the lengths in the ragged dimension\n                if isinstance(second_dimension, slice):\n                    iis, new_lengths  = _get_iis_from_slices(", "                first_dimension_iis = _slice_to_list(\n                    first_dimension, length=len(self.lengths) - 1)\n                # if the second dimension is a slice, determines the 2d indices\n                # from the lengths in the ragged dimension\n                if isinstance(second_dimension, slice):\n                    iis, new_lengths  = _get_iis_from_slices(")]
 
 
+MUTG4 = [('column-list-and-row-list-swapped', RA, "                else:\n                    iis, new_lengths = _get_iis_from_list(\n                        first_dimension_iis, second_dimension)", "                else:\n                    iis, new_lengths = _get_iis_from_list(\n                        second_dimension, first_dimension_iis)"),
+         ('slice-list-read-skips-the-row-check', RA, "            sliced_data = self._data[\n                _convert_from_2d(\n                    iis, lengths=self.lengths, starts=self.starts)]", "            sliced_data = self._data[\n                _convert_from_2d(\n                    iis, lengths=self.lengths, starts=self.starts, error_check=False)]")]
+
+
 def index_units(exclude=()):
     units = [Unit('ra-index', RI.registry(), mutants=MUT + MUTL)]
     units.append(Unit('ra-starts', RI.registry_starts(), mutants=[('starts-not-shifted', RA, "        return np.append([0], np.cumsum(self.lengths)[:-1])", "        return np.cumsum(self.lengths)")]))
@@ -42,6 +46,10 @@ def index_units(exclude=()):
     units.append(Unit('ra-getitem[lo:hi, lo:hi]', RI.registry_getitem('slice-slice', False, False, exclude=exclude, row_none=(False, False)), keys=[RI.F + 'RaggedArray.__getitem__'], mutants=MUTG3, budget=20))
     units.append(Unit('ra-getitem[:, lo:hi]', RI.registry_getitem('slice-slice', False, False, exclude=exclude, row_none=(True, True)), keys=[RI.F + 'RaggedArray.__getitem__'], budget=20))
     units.append(Unit('ra-getitem[lo:hi, :]', RI.registry_getitem('slice-slice', True, True, exclude=exclude, row_none=(False, False)), keys=[RI.F + 'RaggedArray.__getitem__'], budget=20))
+    # a[lo:hi, cols] / a[:, cols]: row slice x column list, through _get_iis_from_list and the (2, M) array form of _convert_from_2d
+    units.append(Unit('ra-index[(2, M) pair array]', {c.key: c for c in (RI.HandleNegative(), RI.ConvertFrom2d(arr2d=True))}, keys=[RI.ConvertFrom2d.key], budget=15))
+    units.append(Unit('ra-getitem[lo:hi, cols]', RI.registry_getitem_list((False, False), exclude=exclude), keys=[RI.F + 'RaggedArray.__getitem__'], mutants=MUTG4, budget=20))
+    units.append(Unit('ra-getitem[:, cols]', RI.registry_getitem_list((True, True), exclude=exclude), keys=[RI.F + 'RaggedArray.__getitem__'], budget=20))
     for v in itertools.product((False, True), repeat=3):
         name = 'ra-2d-slice[%s]' % ','.join(k for k, isnone in zip(('start', 'stop', 'step'), v) if not isnone)
         units.append(Unit(name, RI.registry_iis(*v, exclude=exclude), mutants=(MUTI if v == (False, False, False) else MUTI_NONE if v == (True, True, True) else ()), budget=15))
